@@ -47,5 +47,11 @@ for key, e in idx.items():
             "worktree and a scratch copy of /verif; equivalent to git -C /repo apply; ./check; git -C /repo checkout -- .)" % (p, m)],
     }
     if os.path.isdir(dst):
+        base = os.path.join(dst, "BASE")
+        if os.path.exists(base):
+            # newest /repo commit patch.diff applies to (later fixes may have touched the same lines; a
+            # patch.rebased-<commit>.diff next to it is the same change on a newer commit)
+            meta["patch_applies_to_repo_commit"] = open(base).read().strip()
+            meta["rebased_patches"] = sorted(f for f in os.listdir(dst) if f.startswith("patch.rebased-"))
         json.dump(meta, open(os.path.join(dst, "meta.json"), "w"), indent=1)
 print("collected", len([k for k in idx if os.path.isdir(os.path.join(ROOT, "seeded", k.replace("/", "-")))]), "of", len(idx))
